@@ -341,6 +341,11 @@ theorem bookClean_of_nsTtl (cfg : WCfg) (w : World) (src : SiteId) (bk : Bookkee
     rcases hk with rfl | rfl
     · exact clean_cp _ hv
     · exact clean_cp _ (front cp hv)
+  | frontierDel cp =>
+    apply delC
+    intro k hk
+    rw [List.mem_singleton.mp hk]
+    exact clean_cp _ (front cp hv)
 
 /-! ### which commands of an execution can put an expiry on a namespace key -/
 
@@ -437,6 +442,7 @@ theorem book_name (bk : Bookkeeping) :
   | latestSeed _ _ _ => exact Or.inl rfl
   | latestDel _ _ => exact Or.inr (Or.inl rfl)
   | rootDel _ => exact Or.inr (Or.inl rfl)
+  | frontierDel _ => exact Or.inr (Or.inl rfl)
 
 theorem ttlSafe_book (bk : Bookkeeping) : TtlSafe bk.toCmd := by
   apply ttlSafe_noName
@@ -466,7 +472,7 @@ def EvOK' (cfg : WCfg) : Ev → Prop
   | .snapshot _ cmds _ => ∀ c ∈ cmds, TxnSafe c ∧ isNamespaceKey (c.args.headD []) = false
   | .book _ bk => bk.Valid ∧ bk.Issued
   | .toolRaw _ _ _ => False
-  | .restart _ _ => True
+  | .restart _ _ _ => True
 
 def GoodEvents (cfg : WCfg) (evs : List Ev) : Prop := ∀ e ∈ evs, EvOK' cfg e
 
@@ -527,14 +533,15 @@ theorem evOK_of (cfg : WCfg) (w : World) (hg : GInv cfg w) (e : Ev) (hok : EvOK'
   | snapshot src cmds arg => exact fun c hc => (hok c hc).1
   | book src bk => exact ⟨hok.1, bookClean_of_nsTtl cfg w src bk hok.1 hok.2 (hg.ttl src.other)⟩
   | toolRaw _ _ _ => exact hok
-  | restart _ _ => exact absurd trivial hnr
+  | restart _ _ _ => exact absurd trivial hnr
 
 /-- the stores after a non-link, non-restart event -/
-theorem ttl_step_other (cfg : WCfg) (w : World) (hg : GInv cfg w) (e : Ev) (hok : EvOK' cfg e)
+theorem ttl_step_other' (cfg : WCfg) (w : World) (httl : ∀ s, NsTtl (w.site s).store)
+    (hcps : ∀ s, Slot.lbrace ∉ (w.link s).cp) (e : Ev) (hok : EvOK' cfg e)
     (hnl : ¬ e.isLink) (hnr : ¬ e.isRestart) : ∀ t, NsTtl ((stepWorld cfg w e).site t).store := by
   cases e with
   | link _ _ => exact absurd trivial hnl
-  | restart _ _ => exact absurd trivial hnr
+  | restart _ _ _ => exact absurd trivial hnr
   | client s isTxn cmds =>
     intro t
     unfold stepWorld
@@ -542,49 +549,53 @@ theorem ttl_step_other (cfg : WCfg) (w : World) (hg : GInv cfg w) (e : Ev) (hok 
     rw [site_nextId]
     rcases eq_or_other' s t with rfl | rfl
     · rw [site_setSite_same]
-      exact nsTtl_exec _ _ _ _ (hg.ttl s) (fun c hc => ttlSafe_client cfg.parser c (hok c hc))
-    · rw [site_setSite_other]; exact hg.ttl _
+      exact nsTtl_exec _ _ _ _ (httl s) (fun c hc => ttlSafe_client cfg.parser c (hok c hc))
+    · rw [site_setSite_other]; exact httl _
   | tick s dt =>
     intro t
     unfold stepWorld
     rcases eq_or_other' s t with rfl | rfl
-    · rw [site_setSite_same]; exact hg.ttl s
-    · rw [site_setSite_other]; exact hg.ttl _
+    · rw [site_setSite_same]; exact httl s
+    · rw [site_setSite_other]; exact httl _
   | expire s k =>
     intro t
     have hst : NsTtl (activeExpire (cfg.redis s) (w.site s).now (w.site s).store k).1 := by
       unfold activeExpire
       simp only
-      exact nsTtl_frame (fun _ => False) _ _ (hg.ttl s) (frame_lazyExpire _ _ _ _ _) (fun _ h => h.elim)
+      exact nsTtl_frame (fun _ => False) _ _ (httl s) (frame_lazyExpire _ _ _ _ _) (fun _ h => h.elim)
     unfold stepWorld
     simp only
     split
     · rcases eq_or_other' s t with rfl | rfl
       · rw [site_setSite_same]; exact hst
-      · rw [site_setSite_other]; exact hg.ttl _
+      · rw [site_setSite_other]; exact httl _
     · rw [site_nextId]
       rcases eq_or_other' s t with rfl | rfl
       · rw [site_setSite_same]; exact hst
-      · rw [site_setSite_other]; exact hg.ttl _
+      · rw [site_setSite_other]; exact httl _
   | snapshot src cmds arg =>
     unfold stepWorld
     simp only
     cases hb : buildUnit standaloneMode cfg.parser.resolver cmds with
-    | error e => exact hg.ttl
+    | error e => exact httl
     | ok u =>
       simp only
       have hu : u.cmds = cmds := buildUnit_cmds _ _ _ u hb
-      apply ttl_execAt cfg w hg.ttl
-      apply ttlSafe_commit _ _ _ _ (hg.cps src)
+      apply ttl_execAt cfg w httl
+      apply ttlSafe_commit _ _ _ _ (hcps src)
       rw [hu]
       exact fun c hc => ttlSafe_headOutside c (hok c hc).2
   | book src bk =>
     unfold stepWorld
-    apply ttl_execAt cfg w hg.ttl
+    apply ttl_execAt cfg w httl
     intro c hc
     rw [List.mem_singleton.mp hc]
     exact ttlSafe_book bk
   | toolRaw _ _ _ => exact hok.elim
+
+theorem ttl_step_other (cfg : WCfg) (w : World) (hg : GInv cfg w) (e : Ev) (hok : EvOK' cfg e)
+    (hnl : ¬ e.isLink) (hnr : ¬ e.isRestart) : ∀ t, NsTtl ((stepWorld cfg w e).site t).store :=
+  ttl_step_other' cfg w hg.ttl hg.cps e hok hnl hnr
 
 theorem gstep_other (cfg : WCfg) (hf : FOK cfg.parser.filter) (w : World) (hg : GInv cfg w) (e : Ev)
     (hok : EvOK' cfg e) (hnl : ¬ e.isLink) (hnr : ¬ e.isRestart) : GInv cfg (stepWorld cfg w e) where
@@ -594,15 +605,17 @@ theorem gstep_other (cfg : WCfg) (hf : FOK cfg.parser.filter) (w : World) (hg : 
     (fun t => step_stream_grows cfg hf w hg.winv e t)
   cps := by intro s; rw [step_link_same cfg w e hnl hnr]; exact hg.cps s
 
-theorem gstep_restart (cfg : WCfg) (w : World) (hg : GInv cfg w) (src : SiteId) (p : Nat) :
-    GInv cfg (stepWorld cfg w (.restart src p)) := by
+/-- a restart that resumes at or behind the last committed unit (`cpos ≤ p`) -/
+theorem gstep_restart (cfg : WCfg) (w : World) (hg : GInv cfg w) (src : SiteId) (p : Nat) (sq : Nat)
+    (hex : (w.link src).cpos ≤ p) : GInv cfg (stepWorld cfg w (.restart src p sq)) := by
   unfold stepWorld
   simp only
   split
   · rename_i hguard
     have hr := hg.resume src
     have hsand : dueTags (w.site src).stream (w.link src).cpos = dueTags (w.site src).stream p :=
-      dueTags_sandwich _ _ _ _ hguard.1 hguard.2 hr.2
+      dueTags_sandwich _ _ _ _ hex hguard hr.2
+    have hmin : min (w.link src).cpos p = (w.link src).cpos := Nat.min_eq_left hex
     refine ⟨?_, ?_, ?_, ?_⟩
     · apply winv_setLink cfg w hg.winv src _ ⟨rfl, rfl⟩
       · show p ≤ _
@@ -615,7 +628,9 @@ theorem gstep_restart (cfg : WCfg) (w : World) (hg : GInv cfg w) (src : SiteId) 
       rw [site_setLink]
       rcases eq_or_other' src t with rfl | rfl
       · rw [link_setLink_same]
-        exact ⟨hguard.1, hsand⟩
+        show min (w.link src).cpos p ≤ p ∧ dueTags _ (min (w.link src).cpos p) = dueTags _ p
+        rw [hmin]
+        exact ⟨hex, hsand⟩
       · rw [link_setLink_other]; exact hg.resume _
     · intro t
       rcases eq_or_other' src t with rfl | rfl
@@ -712,8 +727,19 @@ theorem gstep_link (cfg : WCfg) (hf : FOK cfg.parser.filter) (w : World) (hg : G
       · rw [link_setLink_same]; exact hg.cps _
       · rw [link_setLink_other]; exact hg.cps _
 
+/-- the restart of the event, if it is one, resumes at or behind the last unit its link committed -/
+def ExactAt (w : World) : Ev → Prop
+  | .restart src p _ => (w.link src).cpos ≤ p
+  | _ => True
+
+/-- every restart of the run is exact (what the commit records of SYNC mode give; pipeline and
+    parallel mode may resume earlier, at the contiguous frontier) -/
+def ExactRestarts (cfg : WCfg) : World → List Ev → Prop
+  | _, [] => True
+  | w, e :: es => ExactAt w e ∧ ExactRestarts cfg (stepWorld cfg w e) es
+
 theorem gstep (cfg : WCfg) (hf : FOK cfg.parser.filter) (w : World) (hg : GInv cfg w) (e : Ev)
-    (hok : EvOK' cfg e) : GInv cfg (stepWorld cfg w e) := by
+    (hok : EvOK' cfg e) (hex : ExactAt w e) : GInv cfg (stepWorld cfg w e) := by
   by_cases hl : e.isLink
   · cases e with
     | link src arg => exact gstep_link cfg hf w hg src arg
@@ -723,10 +749,10 @@ theorem gstep (cfg : WCfg) (hf : FOK cfg.parser.filter) (w : World) (hg : GInv c
     | snapshot _ _ _ => exact absurd hl (by simp [Ev.isLink])
     | book _ _ => exact absurd hl (by simp [Ev.isLink])
     | toolRaw _ _ _ => exact absurd hl (by simp [Ev.isLink])
-    | restart _ _ => exact absurd hl (by simp [Ev.isLink])
+    | restart _ _ _ => exact absurd hl (by simp [Ev.isLink])
   · by_cases hr : e.isRestart
     · cases e with
-      | restart src p => exact gstep_restart cfg w hg src p
+      | restart src p sq => exact gstep_restart cfg w hg src p sq hex
       | client _ _ _ => exact absurd hr (by simp [Ev.isRestart])
       | tick _ _ => exact absurd hr (by simp [Ev.isRestart])
       | expire _ _ => exact absurd hr (by simp [Ev.isRestart])
@@ -737,11 +763,11 @@ theorem gstep (cfg : WCfg) (hf : FOK cfg.parser.filter) (w : World) (hg : GInv c
     · exact gstep_other cfg hf w hg e hok hl hr
 
 theorem grun (cfg : WCfg) (hf : FOK cfg.parser.filter) (evs : List Ev) (w : World) (hg : GInv cfg w)
-    (hgood : GoodEvents cfg evs) : GInv cfg (runWorld cfg w evs) := by
+    (hgood : GoodEvents cfg evs) (hex : ExactRestarts cfg w evs) : GInv cfg (runWorld cfg w evs) := by
   induction evs generalizing w with
   | nil => exact hg
   | cons e es ih =>
-    exact ih _ (gstep cfg hf w hg e (hgood e (by simp))) (fun e' he' => hgood e' (List.mem_cons_of_mem _ he'))
+    exact ih _ (gstep cfg hf w hg e (hgood e (by simp)) hex.1) (fun e' he' => hgood e' (List.mem_cons_of_mem _ he')) hex.2
 
 theorem ginv_init (cfg : WCfg) (cpAB cpBA : Bytes) (hab : Slot.lbrace ∉ cpAB) (hba : Slot.lbrace ∉ cpBA) :
     GInv cfg (World.init cpAB cpBA) where
@@ -752,18 +778,18 @@ theorem ginv_init (cfg : WCfg) (cpAB cpBA : Bytes) (hab : Slot.lbrace ∉ cpAB) 
 
 /-- the emitted-content invariant over runs with restarts -/
 theorem content_grun (cfg : WCfg) (hf : FOK cfg.parser.filter) (evs : List Ev) (w : World) (hg : GInv cfg w)
-    (hc : Content w) (hgood : GoodEvents cfg evs) : Content (runWorld cfg w evs) := by
+    (hc : Content w) (hgood : GoodEvents cfg evs) (hex : ExactRestarts cfg w evs) : Content (runWorld cfg w evs) := by
   induction evs generalizing w with
   | nil => exact hc
   | cons e es ih =>
-    exact ih _ (gstep cfg hf w hg e (hgood e (by simp))) (content_step cfg hf w hg.winv hc e)
-      (fun e' he' => hgood e' (List.mem_cons_of_mem _ he'))
+    exact ih _ (gstep cfg hf w hg e (hgood e (by simp)) hex.1) (content_step cfg hf w hg.winv hc e)
+      (fun e' he' => hgood e' (List.mem_cons_of_mem _ he')) hex.2
 
 /-! ### quiescence, restarts included -/
 
 def Ev.isLinkOrRestart : Ev → Prop
   | .link _ _ => True
-  | .restart _ _ => True
+  | .restart _ _ _ => True
   | _ => False
 
 theorem dueTags_eq_nodue (s : List TBlock) (p q : Nat) (h : p ≤ q) (heq : dueTags s p = dueTags s q) :
@@ -788,8 +814,8 @@ theorem dueTags_eq_nodue (s : List TBlock) (p q : Nat) (h : p ≤ q) (heq : dueT
     have : tb ∈ ((s.drop p).take (q - p)).filter due := List.mem_filter.mpr ⟨htb, hd⟩
     rw [hf] at this; cases this
 
-theorem noPending_restart (cfg : WCfg) (w : World) (hg : GInv cfg w) (hnp : NoPending w) (src : SiteId) (p : Nat) :
-    NoPending (stepWorld cfg w (.restart src p)) := by
+theorem noPending_restart (cfg : WCfg) (w : World) (hg : GInv cfg w) (hnp : NoPending w) (src : SiteId) (p : Nat) (sq : Nat)
+    (hex : (w.link src).cpos ≤ p) : NoPending (stepWorld cfg w (.restart src p sq)) := by
   unfold stepWorld
   simp only
   split
@@ -800,7 +826,7 @@ theorem noPending_restart (cfg : WCfg) (w : World) (hg : GInv cfg w) (hnp : NoPe
     · rw [link_setLink_same] at htb
       have hr := hg.resume src
       have hsand : dueTags (w.site src).stream (w.link src).cpos = dueTags (w.site src).stream p :=
-        dueTags_sandwich _ _ _ _ hguard.1 hguard.2 hr.2
+        dueTags_sandwich _ _ _ _ hex hguard hr.2
       have heq : dueTags (w.site src).stream p = dueTags (w.site src).stream (w.link src).pos := by
         rw [← hsand]; exact hr.2
       have hsplit : (w.site src).stream.drop p =
@@ -814,16 +840,16 @@ theorem noPending_restart (cfg : WCfg) (w : World) (hg : GInv cfg w) (hnp : NoPe
       have htb' : tb ∈ (w.site src).stream.drop p := htb
       rw [hsplit] at htb'
       rcases List.mem_append.mp htb' with h | h
-      · exact dueTags_eq_nodue _ _ _ hguard.2 heq tb h
+      · exact dueTags_eq_nodue _ _ _ hguard heq tb h
       · exact hnp src tb h
     · rw [link_setLink_other] at htb
       exact hnp _ tb htb
   · exact hnp
 
-theorem restart_same (cfg : WCfg) (w : World) (src : SiteId) (p : Nat) :
-    (stepWorld cfg w (.restart src p)).a.stream = w.a.stream ∧ (stepWorld cfg w (.restart src p)).b.stream = w.b.stream ∧
-    (stepWorld cfg w (.restart src p)).commits = w.commits ∧
-    ∀ s, ((stepWorld cfg w (.restart src p)).link s).emitted = (w.link s).emitted := by
+theorem restart_same (cfg : WCfg) (w : World) (src : SiteId) (p : Nat) (sq : Nat) :
+    (stepWorld cfg w (.restart src p sq)).a.stream = w.a.stream ∧ (stepWorld cfg w (.restart src p sq)).b.stream = w.b.stream ∧
+    (stepWorld cfg w (.restart src p sq)).commits = w.commits ∧
+    ∀ s, ((stepWorld cfg w (.restart src p sq)).link s).emitted = (w.link s).emitted := by
   unfold stepWorld
   simp only
   split
@@ -839,7 +865,7 @@ theorem restart_same (cfg : WCfg) (w : World) (src : SiteId) (p : Nat) :
     restarts of either syncer change neither stream, nor the commit log, nor
     the emitted units -/
 theorem gquiesce (cfg : WCfg) (hf : FOK cfg.parser.filter) (evs : List Ev) (w : World) (hg : GInv cfg w)
-    (hnp : NoPending w) (hl : ∀ e ∈ evs, e.isLinkOrRestart) :
+    (hnp : NoPending w) (hl : ∀ e ∈ evs, e.isLinkOrRestart) (hex : ExactRestarts cfg w evs) :
     (runWorld cfg w evs).a.stream = w.a.stream ∧ (runWorld cfg w evs).b.stream = w.b.stream ∧
     (runWorld cfg w evs).commits = w.commits ∧
     (∀ s, ((runWorld cfg w evs).link s).emitted = (w.link s).emitted) := by
@@ -872,7 +898,7 @@ theorem gquiesce (cfg : WCfg) (hf : FOK cfg.parser.filter) (evs : List Ev) (w : 
           exact List.mem_of_mem_drop htb
         · rw [link_setLink_other] at htb
           exact hnp _ tb htb
-      obtain ⟨h1, h2, h3, h4⟩ := ih _ hg' hnp' hrest
+      obtain ⟨h1, h2, h3, h4⟩ := ih _ hg' hnp' hrest hex.2
       rw [hrun]
       refine ⟨?_, ?_, ?_, ?_⟩
       · rw [h1, hstep]; exact congrArg SiteSt.stream (site_setLink w src .A l')
@@ -883,9 +909,9 @@ theorem gquiesce (cfg : WCfg) (hf : FOK cfg.parser.filter) (evs : List Ev) (w : 
         rcases eq_or_other' src s with rfl | rfl
         · rw [link_setLink_same]; exact hem
         · rw [link_setLink_other]
-    | restart src p =>
-      obtain ⟨r1, r2, r3, r4⟩ := restart_same cfg w src p
-      obtain ⟨h1, h2, h3, h4⟩ := ih _ (gstep_restart cfg w hg src p) (noPending_restart cfg w hg hnp src p) hrest
+    | restart src p sq =>
+      obtain ⟨r1, r2, r3, r4⟩ := restart_same cfg w src p sq
+      obtain ⟨h1, h2, h3, h4⟩ := ih _ (gstep_restart cfg w hg src p sq hex.1) (noPending_restart cfg w hg hnp src p sq hex.1) hrest hex.2
       rw [hrun]
       exact ⟨h1.trans r1, h2.trans r2, h3.trans r3, fun s => (h4 s).trans (r4 s)⟩
     | client _ _ _ => exact absurd he (by simp [Ev.isLinkOrRestart])
@@ -903,5 +929,487 @@ theorem goodEvents_cons (cfg : WCfg) (e : Ev) (es : List Ev) (h : EvOK' cfg e) (
   rcases List.mem_cons.mp he' with rfl | h'
   · exact h
   · exact hs e' h'
+
+/-! ### sites that start with data -/
+
+/-- both sites hold data (and their clocks any value) when the links start -/
+def World.initWith (cpAB cpBA : Bytes) (sa sb : Store) (na nb : Nat) : World :=
+  { a := { store := sa, now := na }, b := { store := sb, now := nb }, ab := { cp := cpAB }, ba := { cp := cpBA } }
+
+theorem winv_initWith (cfg : WCfg) (cpAB cpBA : Bytes) (sa sb : Store) (na nb : Nat) :
+    WInv cfg (World.initWith cpAB cpBA sa sb na nb) where
+  blocks := by intro s tb h; cases s <;> cases h
+  idle := by intro s; cases s <;> exact ⟨rfl, rfl⟩
+  pos := by intro s; cases s <;> exact Nat.le_refl _
+  once := by intro s; cases s <;> rfl
+  halt := by intro s e h; cases s <;> cases h
+
+theorem ginv_initWith (cfg : WCfg) (cpAB cpBA : Bytes) (sa sb : Store) (na nb : Nat)
+    (hab : Slot.lbrace ∉ cpAB) (hba : Slot.lbrace ∉ cpBA) (ha : NsTtl sa) (hb : NsTtl sb) :
+    GInv cfg (World.initWith cpAB cpBA sa sb na nb) where
+  winv := winv_initWith cfg cpAB cpBA sa sb na nb
+  ttl := by intro s; cases s; exact ha; exact hb
+  resume := by intro s; cases s <;> exact ⟨Nat.le_refl _, rfl⟩
+  cps := by intro s; cases s; exact hab; exact hba
+
+theorem content_initWith (cpAB cpBA : Bytes) (sa sb : Store) (na nb : Nat) :
+    Content (World.initWith cpAB cpBA sa sb na nb) := by
+  intro s p hp
+  cases s <;> cases hp
+
+/-! ### what holds under ANY restart (also one that resumes before the last committed unit) -/
+
+def World.core (w : World) : SiteSt × SiteSt × LinkSt × LinkSt × Nat := (w.a, w.b, w.ab, w.ba, w.nextId)
+
+theorem step_core (cfg : WCfg) (w : World) (c : List (Tag × SiteId)) (e : Ev) :
+    (stepWorld cfg { w with commits := c } e).core = (stepWorld cfg w e).core := by
+  cases w with
+  | mk a b ab ba n cm =>
+  cases e with
+  | client s isTxn cmds => cases s <;> rfl
+  | tick s dt => cases s <;> rfl
+  | expire s k => cases s <;> (simp only [stepWorld, World.site, World.setSite]; split <;> rfl)
+  | link src arg =>
+    cases src
+    · simp only [stepWorld, World.link, World.site]
+      by_cases hh : ab.halted.isSome = true
+      · simp only [hh, ↓reduceIte]; rfl
+      · simp only [hh, ↓reduceIte]
+        cases hget : a.stream[ab.pos]? with
+        | none => rfl
+        | some tb =>
+          simp only
+          rcases hp : parseBlock cfg.parser ab.pst tb.block with ⟨ems, pst', err⟩
+          cases err with
+          | some e => rfl
+          | none =>
+            cases ems with
+            | nil => rfl
+            | cons em tl => rfl
+    · simp only [stepWorld, World.link, World.site]
+      by_cases hh : ba.halted.isSome = true
+      · simp only [hh, ↓reduceIte]; rfl
+      · simp only [hh, ↓reduceIte]
+        cases hget : b.stream[ba.pos]? with
+        | none => rfl
+        | some tb =>
+          simp only
+          rcases hp : parseBlock cfg.parser ba.pst tb.block with ⟨ems, pst', err⟩
+          cases err with
+          | some e => rfl
+          | none =>
+            cases ems with
+            | nil => rfl
+            | cons em tl => rfl
+  | snapshot src cmds arg => cases src <;> (simp only [stepWorld]; split <;> rfl)
+  | book src bk => cases src <;> rfl
+  | toolRaw src isTxn cmds => cases src <;> rfl
+  | restart src p sq =>
+    cases src
+    · simp only [stepWorld, World.link]
+      by_cases h : p ≤ ab.pos
+      · simp only [h, ↓reduceIte]; rfl
+      · simp only [h, ↓reduceIte]; rfl
+    · simp only [stepWorld, World.link]
+      by_cases h : p ≤ ba.pos
+      · simp only [h, ↓reduceIte]; rfl
+      · simp only [h, ↓reduceIte]; rfl
+
+theorem site_of_core (w1 w2 : World) (h : w1.core = w2.core) (t : SiteId) : w1.site t = w2.site t := by
+  unfold World.core at h
+  injection h with h1 h
+  injection h with h2 h
+  cases t
+  · exact h1
+  · exact h2
+
+theorem link_of_core (w1 w2 : World) (h : w1.core = w2.core) (t : SiteId) : w1.link t = w2.link t := by
+  unfold World.core at h
+  injection h with h1 h
+  injection h with h2 h
+  injection h with h3 h
+  injection h with h4 h
+  cases t
+  · exact h3
+  · exact h4
+
+/-- the commit log is only ever appended to, by an amount that does not depend on it -/
+theorem step_commits (cfg : WCfg) (w : World) (c : List (Tag × SiteId)) (e : Ev) :
+    (stepWorld cfg { w with commits := c } e).commits = c ++ (stepWorld cfg { w with commits := [] } e).commits := by
+  cases w with
+  | mk a b ab ba n cm =>
+  cases e with
+  | client s isTxn cmds => cases s <;> simp [stepWorld, World.site, World.setSite]
+  | tick s dt => cases s <;> simp [stepWorld, World.site, World.setSite]
+  | expire s k => cases s <;> (simp only [stepWorld, World.site, World.setSite]; split <;> simp)
+  | link src arg =>
+    cases src
+    · simp only [stepWorld, World.link, World.site]
+      by_cases hh : ab.halted.isSome = true
+      · simp [hh]
+      · simp only [hh]
+        cases hget : a.stream[ab.pos]? with
+        | none => simp
+        | some tb =>
+          simp only
+          rcases hp : parseBlock cfg.parser ab.pst tb.block with ⟨ems, pst', err⟩
+          cases err with
+          | some e => simp [World.setLink]
+          | none =>
+            cases ems with
+            | nil => simp [World.setLink]
+            | cons em tl => simp [World.setLink, execAt, World.site, World.setSite, SiteId.other]
+    · simp only [stepWorld, World.link, World.site]
+      by_cases hh : ba.halted.isSome = true
+      · simp [hh]
+      · simp only [hh]
+        cases hget : b.stream[ba.pos]? with
+        | none => simp
+        | some tb =>
+          simp only
+          rcases hp : parseBlock cfg.parser ba.pst tb.block with ⟨ems, pst', err⟩
+          cases err with
+          | some e => simp [World.setLink]
+          | none =>
+            cases ems with
+            | nil => simp [World.setLink]
+            | cons em tl => simp [World.setLink, execAt, World.site, World.setSite, SiteId.other]
+  | snapshot src cmds arg =>
+    cases src <;> (simp only [stepWorld]; split <;> simp [execAt, World.site, World.setSite, SiteId.other])
+  | book src bk => cases src <;> simp [stepWorld, execAt, World.site, World.setSite, SiteId.other]
+  | toolRaw src isTxn cmds => cases src <;> simp [stepWorld, execAt, World.site, World.setSite, SiteId.other]
+  | restart src p sq =>
+    cases src
+    · simp only [stepWorld, World.link]
+      by_cases h : p ≤ ab.pos <;> simp [h, World.setLink]
+    · simp only [stepWorld, World.link]
+      by_cases h : p ≤ ba.pos <;> simp [h, World.setLink]
+
+/-- the commit log the link positions alone account for -/
+def normCommits (w : World) : List (Tag × SiteId) :=
+  (dueTags w.a.stream w.ab.pos).map (fun t => (t, SiteId.B)) ++ (dueTags w.b.stream w.ba.pos).map (fun t => (t, SiteId.A))
+
+def World.norm (w : World) : World := { w with commits := normCommits w }
+
+theorem site_norm (w : World) (t : SiteId) : w.norm.site t = w.site t := site_commits w _ t
+theorem link_norm (w : World) (t : SiteId) : w.norm.link t = w.link t := link_commits w _ t
+
+theorem commitsAt_norm (w : World) (s : SiteId) :
+    commitsAt w.norm s.other = dueTags (w.site s).stream (w.link s).pos := by
+  unfold commitsAt World.norm normCommits
+  have hAB : (SiteId.A == SiteId.B) = false := rfl
+  have hBA : (SiteId.B == SiteId.A) = false := rfl
+  have ftrue : ∀ l : List Tag, l.filter (fun _ => true) = l := fun l => List.filter_eq_self.mpr (fun _ _ => rfl)
+  have ffalse : ∀ l : List Tag, l.filter (fun _ => false) = [] := fun l => List.filter_eq_nil_iff.mpr (fun _ _ => by simp)
+  cases s <;> simp [SiteId.other, World.site, World.link, List.filter_map, Function.comp_def, hAB, hBA, ftrue, ffalse]
+
+/-- the four state facts of `WInv` carry over to any world with the same sites and links;
+    its `once` holds for the normalised log by construction -/
+theorem winv_norm_of (cfg : WCfg) (w1 w2 : World) (h : WInv cfg w1) (hs : ∀ t, w2.site t = w1.site t)
+    (hl : ∀ t, w2.link t = w1.link t) : WInv cfg w2.norm where
+  blocks := by intro s tb htb; rw [site_norm, hs] at htb; exact h.blocks s tb htb
+  idle := by intro s; rw [link_norm, hl]; exact h.idle s
+  pos := by intro s; rw [link_norm, site_norm, hl, hs]; exact h.pos s
+  once := by intro s; rw [commitsAt_norm, site_norm, link_norm]
+  halt := by intro s e he; rw [link_norm, hl] at he; exact h.halt s e he
+
+/-- **the invariant that survives every restart**: the state facts (every
+    block the tool wrote is quiet for the opposite link, every client block is
+    forwardable, parsers idle between blocks, stops only on the builder), all
+    commits ever made come from client blocks, every client block a link has
+    consumed has been committed at least once, the expiry invariant -/
+structure LInv (cfg : WCfg) (w : World) : Prop where
+  winv : WInv cfg w.norm
+  foreign : ∀ t ∈ w.commits, isForeign t.1 = true
+  sup : ∀ s, ∀ t ∈ dueTags (w.site s).stream (w.link s).pos, t ∈ commitsAt w s.other
+  ttl : ∀ s, NsTtl (w.site s).store
+  cps : ∀ s, Slot.lbrace ∉ (w.link s).cp
+  content : Content w
+
+theorem self_commits (w : World) : ({ w with commits := w.commits } : World) = w := rfl
+
+theorem norm_as_with (w : World) : w.norm = { w with commits := normCommits w } := rfl
+
+theorem core_norm_step (cfg : WCfg) (w : World) (e : Ev) :
+    (stepWorld cfg w.norm e).core = (stepWorld cfg w e).core := step_core cfg w (normCommits w) e
+
+theorem commits_step_eq (cfg : WCfg) (w : World) (e : Ev) :
+    (stepWorld cfg w e).commits = w.commits ++ (stepWorld cfg { w with commits := [] } e).commits := by
+  exact step_commits cfg w w.commits e
+
+theorem commits_step_norm (cfg : WCfg) (w : World) (e : Ev) :
+    (stepWorld cfg w.norm e).commits = normCommits w ++ (stepWorld cfg { w with commits := [] } e).commits :=
+  step_commits cfg w (normCommits w) e
+
+theorem evOK_of' (cfg : WCfg) (w : World) (httl : ∀ s, NsTtl (w.site s).store) (e : Ev) (hok : EvOK' cfg e)
+    (hnr : ¬ e.isRestart) : EvOK cfg w e := by
+  cases e with
+  | client s isTxn cmds => exact hok
+  | tick s dt => trivial
+  | expire s k => exact hok
+  | link src arg => trivial
+  | snapshot src cmds arg => exact fun c hc => (hok c hc).1
+  | book src bk => exact ⟨hok.1, bookClean_of_nsTtl cfg w src bk hok.1 hok.2 (httl src.other)⟩
+  | toolRaw _ _ _ => exact hok
+  | restart _ _ _ => exact absurd trivial hnr
+
+theorem commitsAt_append_list (w : World) (d : List (Tag × SiteId)) (dst : SiteId) :
+    commitsAt { w with commits := w.commits ++ d } dst =
+      commitsAt w dst ++ (d.filter (fun p => p.2 == dst)).map (·.1) := by
+  unfold commitsAt
+  simp [List.filter_append]
+
+/-- a non-restart event: everything through the normalised shadow world -/
+theorem lstep_other (cfg : WCfg) (hf : FOK cfg.parser.filter) (w : World) (hl : LInv cfg w) (e : Ev)
+    (hok : EvOK' cfg e) (hnr : ¬ e.isRestart) : LInv cfg (stepWorld cfg w e) := by
+  have httl' : ∀ s, NsTtl (w.norm.site s).store := fun s => by rw [site_norm]; exact hl.ttl s
+  have hw1 : WInv cfg (stepWorld cfg w.norm e) := step_preserves cfg hf w.norm hl.winv e (evOK_of' cfg w.norm httl' e hok hnr)
+  have hcore := core_norm_step cfg w e
+  have hs : ∀ t, (stepWorld cfg w e).site t = (stepWorld cfg w.norm e).site t := fun t => (site_of_core _ _ hcore t).symm
+  have hlk : ∀ t, (stepWorld cfg w e).link t = (stepWorld cfg w.norm e).link t := fun t => (link_of_core _ _ hcore t).symm
+  -- the appended commits, read off the shadow world where `once` holds before and after
+  have hdelta : ∀ s, dueTags ((stepWorld cfg w e).site s).stream ((stepWorld cfg w e).link s).pos =
+      dueTags (w.site s).stream (w.link s).pos ++
+        (((stepWorld cfg { w with commits := [] } e).commits).filter (fun p => p.2 == s.other)).map (·.1) := by
+    intro s
+    have h1 := hw1.once s
+    rw [← hs, ← hlk] at h1
+    rw [← h1]
+    have h2 : stepWorld cfg w.norm e = { stepWorld cfg w.norm e with commits := w.norm.commits ++ (stepWorld cfg { w with commits := [] } e).commits } := by
+      have := commits_step_norm cfg w e
+      cases hx : stepWorld cfg w.norm e with
+      | mk a b ab ba n cm =>
+        rw [hx] at this
+        simp only at this
+        rw [this]
+        rfl
+    have h3 : commitsAt (stepWorld cfg w.norm e) s.other =
+        commitsAt w.norm s.other ++ (((stepWorld cfg { w with commits := [] } e).commits).filter (fun p => p.2 == s.other)).map (·.1) := by
+      unfold commitsAt
+      rw [commits_step_norm]
+      simp [List.filter_append, World.norm]
+    rw [h3, commitsAt_norm]
+  have hnew_foreign : ∀ t ∈ (stepWorld cfg { w with commits := [] } e).commits, isForeign t.1 = true := by
+    intro t ht
+    have hmem : t.1 ∈ (((stepWorld cfg { w with commits := [] } e).commits).filter (fun p => p.2 == t.2)).map (·.1) :=
+      List.mem_map.mpr ⟨t, List.mem_filter.mpr ⟨ht, by simp⟩, rfl⟩
+    have hd := hdelta t.2.other
+    rw [other_other] at hd
+    have : t.1 ∈ dueTags ((stepWorld cfg w e).site t.2.other).stream ((stepWorld cfg w e).link t.2.other).pos := by
+      rw [hd]; exact List.mem_append.mpr (Or.inr hmem)
+    exact dueTags_foreign _ _ _ this
+  refine ⟨winv_norm_of cfg _ _ hw1 hs hlk, ?_, ?_, ?_, ?_, ?_⟩
+  · intro t ht
+    rw [commits_step_eq] at ht
+    rcases List.mem_append.mp ht with h | h
+    · exact hl.foreign t h
+    · exact hnew_foreign t h
+  · intro s t ht
+    rw [hdelta s] at ht
+    have hc : commitsAt (stepWorld cfg w e) s.other =
+        commitsAt w s.other ++ (((stepWorld cfg { w with commits := [] } e).commits).filter (fun p => p.2 == s.other)).map (·.1) := by
+      unfold commitsAt
+      rw [commits_step_eq]
+      simp [List.filter_append]
+    rw [hc]
+    rcases List.mem_append.mp ht with h | h
+    · exact List.mem_append.mpr (Or.inl (hl.sup s t h))
+    · exact List.mem_append.mpr (Or.inr h)
+  · intro s
+    by_cases hlk' : e.isLink
+    · cases e with
+      | link src arg =>
+        have hgl : GInv cfg w.norm → True := fun _ => trivial
+        -- stores: through the shadow world's link step
+        have hshape := link_step_shape cfg hf w.norm hl.winv src arg
+        rw [hs]
+        generalize hw' : stepWorld cfg w.norm (.link src arg) = w' at hshape
+        cases hshape with
+        | stay _ => rw [site_norm]; exact hl.ttl s
+        | skip tb pst' _ _ => rw [site_setLink, site_norm]; exact hl.ttl s
+        | halt tb e' _ _ _ => rw [site_setLink, site_norm]; exact hl.ttl s
+        | emit tb pst' em hget hd hcmds hlive =>
+          rw [site_commits]
+          obtain ⟨hmem, _⟩ := mem_of_getElem? _ _ _ hget
+          have hfor : isForeign tb.tag = true := by
+            unfold due at hd
+            simp only [Bool.and_eq_true] at hd
+            exact hd.1
+          have hbok := hl.winv.blocks src tb hmem
+          unfold BlockOK at hbok
+          rw [if_pos hfor] at hbok
+          have hu : ∀ c ∈ em.unit.cmds, TtlSafe c := by
+            rw [hcmds]
+            intro c hc
+            obtain ⟨c0, hc0, rfl⟩ := List.mem_map.mp hc
+            exact ttlSafe_outside _ (hbok c0 hc0).outside
+          apply ttl_execAt
+          · intro t; rw [site_setLink]; exact httl' t
+          · apply ttlSafe_commit _ _ _ _ _ hu
+            rw [link_norm]; exact hl.cps src
+      | client _ _ _ => exact absurd hlk' (by simp [Ev.isLink])
+      | tick _ _ => exact absurd hlk' (by simp [Ev.isLink])
+      | expire _ _ => exact absurd hlk' (by simp [Ev.isLink])
+      | snapshot _ _ _ => exact absurd hlk' (by simp [Ev.isLink])
+      | book _ _ => exact absurd hlk' (by simp [Ev.isLink])
+      | toolRaw _ _ _ => exact absurd hlk' (by simp [Ev.isLink])
+      | restart _ _ _ => exact absurd hlk' (by simp [Ev.isLink])
+    · -- non-link, non-restart: the store lemma of the exact development needs only ttl and cps
+      have hg' : GInv cfg w.norm → ∀ t, NsTtl ((stepWorld cfg w.norm e).site t).store :=
+        fun hg => ttl_step_other cfg w.norm hg e hok hlk' hnr
+      rw [hs]
+      -- `ttl_step_other` reads `ttl`, `cps` of a `GInv` only; build one for the shadow world's stores
+      exact ttl_step_other' cfg w.norm httl' (fun t => by rw [link_norm]; exact hl.cps t) e hok hlk' hnr s
+  · intro s
+    rw [hlk]
+    by_cases hlk' : e.isLink
+    · cases e with
+      | link src arg =>
+        have hshape := link_step_shape cfg hf w.norm hl.winv src arg
+        generalize hw' : stepWorld cfg w.norm (.link src arg) = w' at hshape
+        have base : Slot.lbrace ∉ (w.norm.link s).cp := by rw [link_norm]; exact hl.cps s
+        cases hshape with
+        | stay _ => exact base
+        | skip tb pst' _ _ =>
+          rcases eq_or_other' src s with rfl | rfl
+          · rw [link_setLink_same]; exact base
+          · rw [link_setLink_other]; exact base
+        | halt tb e' _ _ _ =>
+          rcases eq_or_other' src s with rfl | rfl
+          · rw [link_setLink_same]; exact base
+          · rw [link_setLink_other]; exact base
+        | emit tb pst' em _ _ _ _ =>
+          rw [link_commits, link_execAt]
+          rcases eq_or_other' src s with rfl | rfl
+          · rw [link_setLink_same]; exact base
+          · rw [link_setLink_other]; exact base
+      | client _ _ _ => exact absurd hlk' (by simp [Ev.isLink])
+      | tick _ _ => exact absurd hlk' (by simp [Ev.isLink])
+      | expire _ _ => exact absurd hlk' (by simp [Ev.isLink])
+      | snapshot _ _ _ => exact absurd hlk' (by simp [Ev.isLink])
+      | book _ _ => exact absurd hlk' (by simp [Ev.isLink])
+      | toolRaw _ _ _ => exact absurd hlk' (by simp [Ev.isLink])
+      | restart _ _ _ => exact absurd hlk' (by simp [Ev.isLink])
+    · rw [step_link_same cfg w.norm e hlk' hnr, link_norm]; exact hl.cps s
+  · -- emitted content: through the shadow world
+    have hcn : Content w.norm := by
+      intro s p hp
+      rw [link_norm] at hp
+      obtain ⟨tb, htb, h⟩ := hl.content s p hp
+      exact ⟨tb, by rw [site_norm]; exact htb, h⟩
+    have := content_step cfg hf w.norm hl.winv hcn e
+    intro s p hp
+    rw [hlk] at hp
+    obtain ⟨tb, htb, h⟩ := this s p hp
+    exact ⟨tb, by rw [hs]; exact htb, h⟩
+
+/-- ANY restart: resume at any block already reached, also before the last committed unit -/
+theorem lstep_restart (cfg : WCfg) (w : World) (hl : LInv cfg w) (src : SiteId) (p : Nat) (sq : Nat) :
+    LInv cfg (stepWorld cfg w (.restart src p sq)) := by
+  unfold stepWorld
+  simp only
+  split
+  · rename_i hguard
+    have hpos := hl.winv.pos src
+    rw [link_norm, site_norm] at hpos
+    refine ⟨?_, ?_, ?_, ?_, ?_, ?_⟩
+    · refine ⟨?_, ?_, ?_, ?_, ?_⟩
+      · intro s tb htb
+        rw [site_norm, site_setLink] at htb
+        exact hl.winv.blocks s tb (by rw [site_norm]; exact htb)
+      · intro s
+        rw [link_norm]
+        rcases eq_or_other' src s with rfl | rfl
+        · rw [link_setLink_same]; exact ⟨rfl, rfl⟩
+        · rw [link_setLink_other]
+          have := hl.winv.idle src.other
+          rwa [link_norm] at this
+      · intro s
+        rw [link_norm, site_norm, site_setLink]
+        rcases eq_or_other' src s with rfl | rfl
+        · rw [link_setLink_same]
+          show p ≤ _
+          omega
+        · rw [link_setLink_other]
+          have := hl.winv.pos src.other
+          rwa [link_norm, site_norm] at this
+      · intro s; rw [commitsAt_norm, site_norm, link_norm]
+      · intro s e he
+        rw [link_norm] at he
+        rcases eq_or_other' src s with rfl | rfl
+        · rw [link_setLink_same] at he; cases he
+        · rw [link_setLink_other] at he
+          exact hl.winv.halt src.other e (by rw [link_norm]; exact he)
+    · intro t ht
+      rw [commits_setLink] at ht
+      exact hl.foreign t ht
+    · intro s t ht
+      have hc : ∀ l, commitsAt (w.setLink src l) s.other = commitsAt w s.other := by
+        intro l; unfold commitsAt; rw [commits_setLink]
+      rw [hc]
+      rw [site_setLink] at ht
+      rcases eq_or_other' src s with rfl | rfl
+      · rw [link_setLink_same] at ht
+        obtain ⟨ext, hext⟩ := dueTags_le (w.site src).stream p (w.link src).pos hguard
+        apply hl.sup src t
+        rw [hext]
+        exact List.mem_append.mpr (Or.inl ht)
+      · rw [link_setLink_other] at ht
+        exact hl.sup _ t ht
+    · intro s; rw [site_setLink]; exact hl.ttl s
+    · intro s
+      rcases eq_or_other' src s with rfl | rfl
+      · rw [link_setLink_same]; exact hl.cps _
+      · rw [link_setLink_other]; exact hl.cps _
+    · intro s q hq
+      rw [site_setLink]
+      rcases eq_or_other' src s with rfl | rfl
+      · rw [link_setLink_same] at hq; exact hl.content _ q hq
+      · rw [link_setLink_other] at hq; exact hl.content _ q hq
+  · exact hl
+
+theorem lstep (cfg : WCfg) (hf : FOK cfg.parser.filter) (w : World) (hl : LInv cfg w) (e : Ev)
+    (hok : EvOK' cfg e) : LInv cfg (stepWorld cfg w e) := by
+  by_cases hr : e.isRestart
+  · cases e with
+    | restart src p sq => exact lstep_restart cfg w hl src p sq
+    | client _ _ _ => exact absurd hr (by simp [Ev.isRestart])
+    | tick _ _ => exact absurd hr (by simp [Ev.isRestart])
+    | expire _ _ => exact absurd hr (by simp [Ev.isRestart])
+    | link _ _ => exact absurd hr (by simp [Ev.isRestart])
+    | snapshot _ _ _ => exact absurd hr (by simp [Ev.isRestart])
+    | book _ _ => exact absurd hr (by simp [Ev.isRestart])
+    | toolRaw _ _ _ => exact absurd hr (by simp [Ev.isRestart])
+  · exact lstep_other cfg hf w hl e hok hr
+
+theorem lrun (cfg : WCfg) (hf : FOK cfg.parser.filter) (evs : List Ev) (w : World) (hl : LInv cfg w)
+    (hgood : GoodEvents cfg evs) : LInv cfg (runWorld cfg w evs) := by
+  induction evs generalizing w with
+  | nil => exact hl
+  | cons e es ih =>
+    exact ih _ (lstep cfg hf w hl e (hgood e (by simp))) (fun e' he' => hgood e' (List.mem_cons_of_mem _ he'))
+
+theorem linv_initWith (cfg : WCfg) (cpAB cpBA : Bytes) (sa sb : Store) (na nb : Nat)
+    (hab : Slot.lbrace ∉ cpAB) (hba : Slot.lbrace ∉ cpBA) (ha : NsTtl sa) (hb : NsTtl sb) :
+    LInv cfg (World.initWith cpAB cpBA sa sb na nb) where
+  winv := winv_norm_of cfg _ _ (winv_initWith cfg cpAB cpBA sa sb na nb) (fun _ => rfl) (fun _ => rfl)
+  foreign := by intro t ht; cases ht
+  sup := by intro s t ht; cases s <;> cases ht
+  ttl := by intro s; cases s; exact ha; exact hb
+  cps := by intro s; cases s; exact hab; exact hba
+  content := content_initWith cpAB cpBA sa sb na nb
+
+theorem nsTtl_nil : NsTtl [] := by intro k e h; cases h
+
+theorem initWith_nil (cpAB cpBA : Bytes) : World.initWith cpAB cpBA [] [] 0 0 = World.init cpAB cpBA := rfl
+
+instance (w : World) (e : Ev) : Decidable (ExactAt w e) := by
+  cases e <;> unfold ExactAt <;> infer_instance
+
+instance decExactRestarts (cfg : WCfg) : ∀ (w : World) (evs : List Ev), Decidable (ExactRestarts cfg w evs)
+  | _, [] => isTrue trivial
+  | w, e :: es =>
+    have := decExactRestarts cfg (stepWorld cfg w e) es
+    show Decidable (ExactAt w e ∧ ExactRestarts cfg (stepWorld cfg w e) es) from inferInstance
 
 end GunYu.Bisync
